@@ -119,6 +119,7 @@ impl TcpEyesEngine {
             timeout: timeout_ms,
             conc: c.conc.map(|x| x as usize),
             reuse: None,
+            feed: 0,
         };
         let want = reference(&model);
         let rt = tokio::runtime::Builder::new_current_thread().enable_all().build().unwrap();
